@@ -410,7 +410,7 @@ def run(res, ctx):
     rng = random.Random(seed * 7919 + 12)
     ctx.update(stats=collections.Counter(), seen=set(), samples=[], corr_diffs=[])
     st = ctx["stats"]
-    div = check_division(res, ctx, rng, 3000 if tier == "quick" else 40000)
+    div = check_division(res, ctx, rng, 10000 if tier == "quick" else 100000)
     dates = check_dates(res, ctx, rng, 2000 if tier == "quick" else 40000)
 
     batch = []
@@ -427,7 +427,7 @@ def run(res, ctx):
                   list(range(R.day(2021, 12, 30), R.day(2022, 1, 22))), False, "mem"))
     check_lookups(res, ctx, batch)
 
-    n = 250 if tier == "quick" else 5000
+    n = 1500 if tier == "quick" else 12000
     done = 0
     while done < n:
         batch = []
@@ -441,7 +441,7 @@ def run(res, ctx):
         check_lookups(res, ctx, batch)
 
     # decision rules through the application path
-    nrows = 200 if tier == "quick" else 3000
+    nrows = 1500 if tier == "quick" else 12000
     batch = []
     for _ in range(nrows):
         truth, todays, lookups = gen_calendar(rng)
